@@ -237,6 +237,19 @@ def templates():
         t.append((["Switch", ["this", "k"], [[0, B], [1, ["name", "Int16ub"]]], ["Bytes", 5]], {"k": k}))
     for key in (0, 7, tag(b"\x01\x02")):
         t.append((["FixedSized", 4, ["ProcessXor", ["this", "k"], ["name", "Int32ub"]]], {"k": key}))
+    # zero-width look-ahead whose inner parse succeeds, mismatches after consuming, or runs into the end of the data
+    for n in (1, 2, 3):
+        for pk in (["Const", tag(b"AB"), None], ["name", "Int16ub"], ["Bytes", 9], ["Struct", [["a", B], ["c", ["Const", tag(b"\x00"), None]]]], ["OneOf", B, [1, 2]], ["CString", "ascii"]):
+            t.append((["Struct", [["p", ["Peek", pk]], ["x", ["Bytes", ["this", "_params", "n"]]]]], {"n": n}))
+            t.append((["Sequence", [[None, B], [None, ["Peek", pk]], [None, ["Array", ["this", "_params", "n"], B]]]], {"n": n}))
+    # deferred members are skipped by their actual size
+    for n in (0, 1, 2):
+        for lz in (["Prefixed", B, ["name", "Int16ub"], False], ["Prefixed", ["name", "Int16ul"], ["Bytes", 3], True], ["Prefixed", B, ["Bytes", ["this", "_params", "n"]], False],
+                   ["Prefixed", B, ["Struct", [["a", B], ["b", ["Bytes", ["this", "_", "_params", "n"]]]]], False], ["Array", ["this", "_params", "n"], ["name", "Int16ub"]],
+                   ["Padded", 4, ["name", "Int16ub"]], ["Struct", [["a", B], ["b", ["Prefixed", B, B, False]]]]):
+            t.append((["Struct", [["h", B], ["z", ["Lazy", lz]], ["t", B]]], {"n": n}))
+            t.append((["Lazy", lz], {"n": n}))
+            t.append((["LazyStruct", [["h", B], ["z", lz], ["t", B]]], {"n": n}))
     return t
 
 
@@ -245,7 +258,10 @@ def run(ctx):
     # ---- (a) missing-key sweep
     paths = {"this.missing": ["this", "missing"], "this._.missing": ["this", "_", "missing"], "this._params.missing": ["this", "_params", "missing"],
              "this._root.missing": ["this", "_root", "missing"], "this._._.missing": ["this", "_", "_", "missing"], "expr(this.missing+1)": ["bin", "+", ["this", "missing"], 1],
-             "len_(this.missing)": ["fn", "len", ["this", "missing"]]}
+             "len_(this.missing)": ["fn", "len", ["this", "missing"]],
+             # plain Python callables: attribute access on the context raises AttributeError, item access KeyError
+             "lambda ctx: ctx.missing": ["lam", "missing"], "lambda ctx: ctx['missing']": ["lamitem", "missing"], "lambda ctx: ctx._params.missing": ["lam", "_params", "missing"],
+             "lambda ctx: ctx._.missing": ["lam", "_", "missing"]}
     k = 0
     nslots = 0
     for pname, e in paths.items():
@@ -307,6 +323,13 @@ def run(ctx):
         except (M.ModelGap, M.MissingKey, M.Unsized):
             continue
         kw = dict(g.kw)
+        c = rng.random()
+        if c < 0.08:
+            r = ["Lazy", r]
+        elif c < 0.16:
+            r = ["Struct", [["h", B], ["z", ["Lazy", r]], ["t", B]]]
+        elif c < 0.24:
+            r = ["Struct", [["pk", ["Peek", rng.choice([["Const", tag(b"\x01\x02"), None], ["name", "Int16ub"], ["Bytes", 7], ["OneOf", B, [0, 1]], g.fixed_leaf()])]], ["v", r]]]
         case = {"kind": "grammar", "recipe": r, "kw": kw}
         d, n = check_type(ctx, r, kw, case)
         if kw:
@@ -319,7 +342,7 @@ def run(ctx):
                 v = genval(r, rng, M.top_scope(dict(kw)))
             except (M.ModelGap, M.MissingKey, M.Unsized, M.Reject):
                 break
-            okn += measure(ctx, r, d, n, kw, v, case, "ProcessXor" in kinds_in(r))
+            okn += measure(ctx, r, d, n, kw, v, case, bool(kinds_in(r) & {"ProcessXor", "ProcessRotateLeft"}))
         if okn >= 2 and kw:
             ctx.nontrivial("gr", shape(r))
         ctx.count("grammar_recipes_sized")
